@@ -493,6 +493,22 @@ def _run_case(case, mon):
                 r = random.Random(op["r"])
                 ospec = gen.rand_leaf_spec(r, init["ext"][-1] + 1, r.choice([0.0, 0.5, 0.9]), 0.2, d)
                 other = gen.fiber_from_spec(ospec, d)
+                if (op["r"] >> 5) % 4 == 0:
+                    # first an assignment the library refuses (the right-hand side of a fiber assignment must be a fiber):
+                    # a refused write is no write -- every later read still returns the value most recently written
+                    bad = [7, Payload(3), None, "x"][(op["r"] >> 9) % 4]
+                    b4 = snap(subject)
+                    try:
+                        sub <<= bad
+                    except (AssertionError, TypeError, AttributeError, ValueError):
+                        mon.count("assign_prefix_refused")
+                        if not compare("assign_prefix:refused"):
+                            return
+                        mon.check(snap(subject) == b4, "assign_prefix:refused:modified-tree",
+                                  "a fiber assignment refused with an error changed the stored tree")
+                    else:
+                        mon.note({"assign_prefix_non_fiber_accepted": repr(bad)})
+                        return
                 # the right-hand side is a fiber of its own, or (every other time) the sub-fiber stored under another prefix of the same tree
                 src_pre = None
                 if (op["r"] >> 7) % 2:
